@@ -52,10 +52,9 @@ def u1(ctx):
             # the target name: the `name` argument, or the name generated for it (uuid + extension)
             name_ok = False
             if a1 is not None:
-                ns = origins(du, n, a1)
-                name_ok = bool(ns) and all((o.kind == "param" and o.name == p_name_ and not o.path)
-                                           or (o.kind == "expr" and o.leaf is not None and ("uuid" in src(o.leaf) or isinstance(o.leaf, ast.AugAssign)))
-                                           for o in ns)
+                from ..dataflow import depends_on
+                deps = {x for x in depends_on(du, n, a1) if not x.startswith(("<call:", "self."))}
+                name_ok = p_name_ in deps and deps <= {p_name_, "content_type", "self"}
             obs.append(ctx.ob(uid_ok and name_ok, fi.qualname, where(fi, n), "_check_duplicate(uid of upload, name)",
                               "checked uid comes from <file>.get_uid(), name is the target name",
                               "_check_duplicate is called with (%s, %s): not the uploaded object's UID / target name"
